@@ -307,8 +307,11 @@ def api_cases(rng, n, with_opencc, stats, long_lists=False):
         if schema == "luna_pinyin":
             if r < 0.45:
                 keys = "".join(rng.choice(SYLL) for _ in range(rng.choice([1, 1, 2, 2, 3, 4])))
+                if not long_lists and keys in ("a", "e", "o"):
+                    keys += rng.choice(SYLL)
             elif r < 0.6:
-                keys = "".join(rng.choice("abcdefghijklmnopqrstuwxyz") for _ in range(rng.choice([1, 2, 3, 4])))
+                keys = "".join(rng.choice("abcdefghijklmnopqrstuwxyz")
+                               for _ in range(rng.choice([1, 2, 3, 4]) if long_lists else rng.choice([2, 3, 3, 4])))
             elif r < 0.7:
                 keys = "`" + "".join(rng.choice("abcdefghijklmnopqrstuvwxy") for _ in range(rng.choice([1, 2, 3])))
             elif r < 0.8:
@@ -547,6 +550,7 @@ def run_api(ctx, rmodel, exe, b, ncases):
     stats.update({"epochs": 0, "state_ops_applied": 0, "epochs_without_reference": 0})
     mfeed, mwant = [], []
     nontrivial = set()
+    reported_cls = set()
     for (schema, opts, keys, ops), line in zip(cases, lines):
         bad, info = oracle_api(ops, line)
         if info:
@@ -573,6 +577,9 @@ def run_api(ctx, rmodel, exe, b, ncases):
             stats["oracle_fail"] += 1
             kinds = sorted({o.split()[0] + ("-option" if o.startswith("O ") else "") for o in ops if is_state_op(o)})
             cls = "%s:%s:%s%s" % (schema, opts, key, (":after-" + "+".join(kinds)) if kinds else "")
+            if cls in reported_cls:
+                continue                  # one replay per failing class and run
+            reported_cls.add(cls)
             ctx.violation("api:" + cls, "librime violates the property on a stock schema: " + what,
                           {"schema": schema, "options": opts, "input_keys": keys, "ops": ops, "observed": line[:3000],
                            "how": "deploy data/minimal (+ %s as shared/opencc when an option needs OpenCC), select the schema, set the "
@@ -634,7 +641,7 @@ def run(ctx):
                          flags="-I%s/src" % b, libs="-L%s/lib -lrime -lglog -Wl,-rpath,%s/lib" % (b, b))
     n = 1500 if ctx.tier == "quick" else 20000
     stats, cases, nontrivial = run_unit(ctx, rmodel, exe, n)
-    astats, acases, anontrivial = run_api(ctx, rmodel, exe, b, 200 if ctx.tier == "quick" else 2400)
+    astats, acases, anontrivial = run_api(ctx, rmodel, exe, b, 170 if ctx.tier == "quick" else 1800)
     ctx.coverage.update({
         "evaluations": stats["cases"] + astats["cases"], "distinct_nontrivial": len(nontrivial) + len(anontrivial),
         "rule": "unit level: random translation trees (depth <= 3: unique/echo/fifo/union/cache/distinct/prefetch/single-char/"
@@ -643,8 +650,12 @@ def run(ctx):
                 "with indices aimed at 0, size-1, size, size+1 and page boundaries; non-trivial = the translations hold at "
                 "least two candidates; distinct = distinct case lines.  API level: luna_pinyin and cangjie5 of data/minimal "
                 "(options: extended_charset, and with OpenCC data zh_simp/zh_tw/simplification) x generated inputs x call "
-                "sequences, page view vs the iterator's list of a fresh session; non-trivial = the list is longer than one "
-                "page; distinct = distinct (schema, options, input)",
+                "sequences, page view vs the iterator's list of a brand-new session; histories also move the caret in front of "
+                "unconfirmed input (set_caret_pos 0/k, Home, Left/Right: at position 0 every update re-translates) or toggle an "
+                "unrelated/related option while composing, then page, highlight and re-read every index already reported - each "
+                "such state change starts an epoch with its own reference (a new session brought to the same input, caret and "
+                "options without reading); non-trivial = the list is longer than one page; distinct = distinct (schema, "
+                "options, input, state ops)",
         "samples": [c[0] for c in cases[3:200:41]] + [" ".join([s_, o_, k_] + ops) for s_, o_, k_, ops in acases[1:40:9]],
         "unit": stats, "api": astats, "exhaustive": False,
         "mutation_drills": MUTATION_DRILLS,
@@ -675,6 +686,13 @@ MUTATION_DRILLS = [
     {"mutation": "charset_filter.cc is_extended_cjk: first range starts at 0x3401 instead of 0x3400",
      "ran": "same", "fired": "VIOLATION no-failing-input-found: correspondence:c04-unit (U+3400 passes the real filter) and the "
                              "translator-tied theorem C04_charset_ranges_current no longer checks"},
+    {"mutation": "script_translator.cc ScriptTranslator::Query: remember the latest query and hand out the SAME (already advanced) "
+                 "ScriptTranslation again when the next query is identical (round-2 seeded change, re-implemented)",
+     "ran": "scratch worktree of /repo 9d9d51b, VERIF_REPO/VERIF_CACHE bin/check C04 quick",
+     "fired": "VIOLATION with failing inputs (45 replays): api:luna_pinyin:-:stability:after-C and window/iterator:after-C "
+              "(set_input shi, set_caret_pos 0, get_context, highlight_candidate 3, get_context: index 0 read U+662F then "
+              "U+5341), api:luna_pinyin:*:window:after-O-option / iterator:after-O-option (full_shape, ascii_punct, zh_simp, "
+              "zh_tw toggled while composing: the page no longer matches a fresh session in the same option state)"},
     {"mutation": "translation.cc MergedTranslation::Elect: Compare(...) < 0 instead of <= 0",
      "ran": "same", "fired": "VIOLATION no-failing-input-found: correspondence:c04-unit (merge order differs from the model; the property "
                              "itself does not depend on the merge order)"},
@@ -701,7 +719,8 @@ MANIFEST = {
             "cangjie5_chain_no_dup).  Every run diffs the extracted model against real rime::Menu objects over "
             "real translation/filter classes injected into a real session (so the real API functions and Selector do the arithmetic) "
             "on generated cases, and evaluates the property's own oracle (page view vs iterator of a fresh session, last-page flag, "
-            "stability, duplicate texts) on luna_pinyin and cangjie5 of data/minimal.",
+            "stability, duplicate texts) on luna_pinyin and cangjie5 of data/minimal, including histories that re-translate without "
+            "an input change (caret moved in front of the input, options toggled while composing).",
     "note": "Print Assumptions: all theorems closed under the global context (no axioms). Trusted: Coq kernel (vm_compute only in the "
             "examples), ExtrOcamlBasic extraction + OCaml/C++ glue, the harness. Peek is modelled as pure (CacheTranslation's memo), "
             "quality as an integer, text as code points; loops use explicit fuel (rem/height) whose sufficiency is validated by the "
